@@ -76,4 +76,27 @@ theorem runRows_builtFor (ext : Ext) (fields : List Field) (rows : List SVal) (r
     exact BuiltFor_of_takeRest_eq r0 root _ _ (foldlM_takeRest ext hpush rows r0 root h)
       (newRoot_builtFor fields r0 hm hr)
 
+/-- bridge to the strict dictionary clause of agent-refine's `WFB` (`k = .int j → 0 ≤ j ∧ j.toNat < |index|`): together
+with "every key is null or an integer" it is the dictionary clause of `Faithful` -/
+theorem faithful_keys_of_strict (ks : List LVal) (n : Nat)
+    (h1 : ∀ k ∈ ks, k = .null ∨ ∃ j : Int, k = .int j)
+    (h2 : ∀ k ∈ ks, ∀ j : Int, k = .int j → 0 ≤ j ∧ j.toNat < n) :
+    ∀ k ∈ ks, k = .null ∨ ∃ j : Nat, k = .int j ∧ j < n := by
+  intro k hk
+  rcases h1 k hk with h | ⟨j, hj⟩
+  · exact Or.inl h
+  · obtain ⟨h0, hlt⟩ := h2 k hk j hj
+    refine Or.inr ⟨j.toNat, ?_, hlt⟩
+    rw [hj, Int.toNat_of_nonneg h0]
+
+/-- the keys of an integer leaf builder are null or integers -/
+theorem leaf_int_keys (p : String) (t : IntTy) (v : Validity) (vals : List Int) :
+    ∀ k ∈ dec (.leaf p (.int t) v vals), k = .null ∨ ∃ j : Int, k = .int j := by
+  intro k hk
+  simp only [dec] at hk
+  rcases mem_maskNull _ _ _ hk with h | h
+  · exact Or.inl h
+  · obtain ⟨x, _, rfl⟩ := List.mem_map.mp h
+    exact Or.inr ⟨x, by cases t <;> rfl⟩
+
 end SaModel.Lemmas.C03
